@@ -85,16 +85,19 @@ func (e *refEnv) chain(n ast.Node, in any, c rctx) ([]any, int) {
 	}
 	var out []any
 	for _, t := range targets {
-		items, c2, err := e.step(n, t, c)
-		if err != eNone {
-			return out, err
-		}
+		// a step that fails part-way (a subscript list, a unary operator over
+		// a sequence) has already handed the items before the failure on to
+		// the rest of the chain: evaluation is depth-first
+		items, c2, serr := e.step(n, t, c)
 		for _, it := range items {
 			r, err := e.chain(n.Next(), it, c2)
 			out = append(out, r...)
 			if err != eNone {
 				return out, err
 			}
+		}
+		if serr != eNone {
+			return out, serr
 		}
 	}
 	return out, eNone
